@@ -131,6 +131,8 @@ def analyse(ctx, name, agg):
             continue
         if (i + 1) in bad_lines:
             why = "implementation differs from the proved model"
+            if d.get("kind") == "shared":
+                why = "a DatReaderOptimizer that has already served other rule lists normalises this one differently from a fresh optimizer (geodata cache)"
         if ops[i].startswith("q "):
             agg["evaluations"] += 1
             fi = fields(impl[i])
@@ -158,6 +160,8 @@ def analyse(ctx, name, agg):
         reported_prog.add((cur, why))
         agg["flagged_programs"].add((name, cur))
         pd = descr[cur] if cur is not None else {}
+        if d.get("kind") == "shared" and d.get("tag"):
+            pd = d
         tag = pd.get("tag", "")
         what = f"{why} [{pd.get('backend', name)}] rules: {' ; '.join(pd.get('text', []))} ; fallback: {pd.get('fallback')}"
         if ops[i].startswith("q "):
